@@ -329,6 +329,11 @@ def main():
             a, b = E["impl"].get(i), E["model"].get(i)
             if a is None or b is None or canon(prop, a) != canon(prop, b):
                 disagreements.append(dict(id=i, case=line.partition(" ")[2], impl=a, model=b))
+    # the independent whitepaper decoder run on the REAL writer's bytes is an oracle on the
+    # implementation (C02), not a model-vs-implementation comparison
+    for d in [d for d in disagreements if d["case"].startswith("specdecode ")]:
+        disagreements.remove(d)
+        E["oracle_fail"].append(dict(id=d["id"], signature="spec-decode-mismatch", message=f"independent decoder on the written bytes: `{str(d['model'])[:150]}`; handed to the writer: `{str(d['impl'])[:150]}`", replay=d["case"]))
     k_ok = h_ok and not disagreements and not E["errors"] and P.get("driver_ok", True)
 
     known = load_json(os.path.join(VERIF, "known_findings.json"), {"findings": [], "fixed": []})
